@@ -113,8 +113,23 @@ P.fn(FP + 'ifcase.invoke', name='ifcase.invoke', params=dict(self='ifcase', tex=
      ensures=ONE + ['ghost("selector") == ARG_B()', 'len(result) == 0'],
      allocates=True, skip_frame=True, locals={'[]': 'list[Tok]'},
      calls={'tex.processIfContent': 'TeX.processIfContent/int', 'tex.readNumber': 'TeX.readNumber'})
+# \ifdefined: the true text iff the name of the token read is defined in the context (Context.__contains__: chained lookup, C04)
+P.cls('NameTok', fields=dict(macroName='str'))
+P.cls('DCtx', dictof=('str', 'int'))
+P.cls('DDoc', fields=dict(context='DCtx'))
+P.cls('ifdefined', fields=dict(ownerDocument='DDoc'))
+P.uninterp('ARG_NAME', ['ifdefined'], 'str')
+P.fn('ifdefined.parse', params=dict(self='ifdefined', tex='TeX'), returns='dict[str,NameTok]', trusted=True, modifies=[],
+     ensures=['"name" in result', 'result["name"].macroName == ARG_NAME(self)'],
+     notes='Macro.parse returns the attributes; name is bound to the token read, unexpanded (C05); ARG_NAME: ghost name of that token')
+P.fn('str_', params=dict(s='str'), returns='str', ensures=['result == s'], trusted=True, modifies=[], notes='str() of a str')
+P.fn(FP + 'ifdefined.invoke', name='ifdefined.invoke', params=dict(self='ifdefined', tex='TeX'), returns='list[Tok]',
+     requires=['ghost("ncalls") == 0'],
+     ensures=ONE + ['ghost("branch") == (0 if ARG_NAME(self) in self.ownerDocument.context else 1)', 'len(result) == 0'],
+     allocates=True, skip_frame=True, locals={'[]': 'list[Tok]'},
+     calls={'self.parse': 'ifdefined.parse', 'str': 'str_', 'tex.processIfContent': 'TeX.processIfContent/bool'})
 P.unverified_surrounding("functional selection of processIfContent (which tokens are pushed back) against TeX's skipping machine: "
-                         "bounded native comparison (bounded/ifcontent); if / ifx token comparison (Token.__eq__ hook), ifdefined / box tests: not under contract")
+                         "bounded native comparison (bounded/ifcontent); if / ifx token comparison (Token.__eq__ hook), ifcsname / box tests: not under contract")
 
 # ---------------------------------------------------------------------------------------------- which tokens are pushed back
 # TeX's skipping machine, stated over a ghost classification K of the stream tokens (0 other, 1 \if..., 2 \fi, 3 \else, 4 \or,
